@@ -35,7 +35,6 @@ let () =
           if predicted <= nmax then begin
             match build_expr r with
             | Some sm -> Printf.printf "BUILD ok size %d\n" (List.length sm);
-                if Array.length Sys.argv > 2 then Printf.printf "VALID %b\n" (lexer_ok sm [TRegex r]);
                 dump_dfa sm; match_inputs ~spec:(spec_longest [TRegex r]) sm (List.rev !inputs)
             | None -> print_string "BUILD fuel\n"
           end else print_string "BUILD skipped-too-large\n"
@@ -48,7 +47,6 @@ let () =
       let tl = List.map (function Some t -> t | None -> assert false) ts in
       match create_lexer tl with
       | Some sm -> Printf.printf "LEXER size %d\n" (List.length sm);
-          if Array.length Sys.argv > 2 then Printf.printf "VALID %b\n" (lexer_ok sm tl);
           dump_dfa sm; match_inputs ~spec:(spec_longest tl) sm (List.rev !inputs)
       | None -> print_string "LEXER fuel\n"
     end);
